@@ -217,6 +217,10 @@ def run(scn) -> Dict[str, Any]:
         class Channel(ThreadBroadcastChannel):
             _socket_class = PollingThreadSocket
 
+        # one round of the receive loop polls every socket once, and the poll in flight when the last peer finished may have
+        # looked at its queue before that peer's message arrived: stuck = a stale poll plus one whole fresh round, all empty
+        sch.idle_limit = len(scn["names"]) + 1
+
         scripts = {}
         for n in scn["names"]:
             others = [o for o in scn["names"] if o != n]
